@@ -10,6 +10,7 @@ Tables (the SQLite schema of stream (c) and the closed schema of the scope model
   t(id,a,b,c,g)  u(id,a,d,g)   -- the tables of vplib/rel/prog.py
   v(id,s,dt,x,y)               -- text / date / float columns
   `my table`(a, `order`, `a b`, Mixed)
+  w(a,g), w1(a)                -- bare tables whose columns are exactly {a, g}: a legitimate wildcard operand of set operations
 """
 from ..rel import prog as P
 
@@ -18,6 +19,8 @@ SCHEMA = {
     "u": ["id", "a", "d", "g"],
     "v": ["id", "s", "dt", "x", "y"],
     "my table": ["a", "order", "a b", "Mixed"],
+    "w": ["a", "g"],
+    "w1": ["a"],
 }
 
 
@@ -127,68 +130,104 @@ class G:
             tags.add("open_take")
         return "from t\n%s%s%s" % (pre, body, post), tags
 
-    def _operand(self, cols_known, tbl=None):
-        """a relation with the two columns a, g (known layout) or a wildcard table"""
+    def _operand(self, cols_known, tbl=None, one=False):
+        """a relation with the columns a, g (or only a when `one`) -- known layout -- or a wildcard table"""
         r = self.r
         tbl = tbl or self.pick(["t", "u"])
+        cl = "a" if one else "a, g"
         if not cols_known:
             return "from %s" % tbl, True
-        k = r.randint(0, 5)
+        k = r.randint(0, 6)
+        if k == 6:
+            return "from %s" % ("w1" if one else "w"), True          # columns unknown to the compiler, arity right in the database
         if k == 0:
-            return "from %s | select {a, g}" % tbl, False
+            return "from %s | select {%s}" % (tbl, cl), False
         if k == 1:
-            return "from %s | filter a > %d | select {a, g}" % (tbl, r.randint(0, 3)), False
+            return "from %s | filter a > %d | select {%s}" % (tbl, r.randint(0, 3), cl), False
         if k == 2:
-            return "from %s | select {a, g} | sort a | %s" % (tbl, self.take_txt()), False
+            return "from %s | select {%s} | sort a | %s" % (tbl, cl, self.take_txt()), False
         if k == 3:
-            return "from %s | group {a, g} (take 1) | select {a, g}" % tbl, False
+            return "from %s | group {%s} (take 1) | select {%s}" % (tbl, cl, cl), False
         if k == 4:
-            return "from [{a = 1, g = 2}, {a = 3, g = 4}]", False
-        return "from %s | group {g} (aggregate {a = max a}) | select {a, g}" % tbl, False
+            return ("from [{a = 1}, {a = 3}]" if one else "from [{a = 1, g = 2}, {a = 3, g = 4}]"), False
+        return ("from %s | group {g} (aggregate {a = max a}) | select {a}" % tbl if one else "from %s | group {g} (aggregate {a = max a}) | select {a, g}" % tbl), False
 
     def f_setops(self):
         r = self.r
         known = r.random() < 0.8
+        one = known and r.random() < 0.35
+        cl = "a" if one else "a, g"
         wt = self.pick(["t", "u"])          # wildcard operands use ONE table: the compiler cannot know the arity of others
-        top, w1 = self._operand(known, None if known else wt)
+        top, w1 = self._operand(known, None if known else wt, one)
         n = 1 if r.random() < 0.7 else 2
         src = top
         tags = {"setop"}
+        if known:
+            tags.add("setop_cols1" if one else "setop_cols2")
         for _ in range(n):
             op = self.pick(["append", "remove", "intersect", "append", "union_distinct"])
-            bot, w2 = self._operand(known, None if known else wt)
+            bot, w2 = self._operand(known, None if known else wt, one)
             if w1 or w2:
                 tags.add("setop_wild")
             if op == "union_distinct":
-                src += "\nappend (%s)\ngroup {a, g} (take 1)" % bot if known else "\nappend (%s)" % bot
+                src += "\nappend (%s)\ngroup {%s} (take 1)" % (bot, cl) if known else "\nappend (%s)" % bot
                 tags.add("append"); tags.add("distinct")
             else:
                 src += "\n%s (%s)" % (op, bot)
                 tags.add(op)
             if r.random() < 0.25 and op in ("remove", "intersect") and known:
-                src = src.replace("\n%s (" % op, "\ngroup {a, g} (take 1)\n%s (" % op, 1)
+                src = src.replace("\n%s (" % op, "\ngroup {%s} (take 1)\n%s (" % (cl, op), 1)
                 tags.add("distinct")
-        post = self.pick(["", "", "\nsort a", "\nselect {a}", "\nselect {g}", "\nfilter a > 1", "\n" + self.take_txt(), "\naggregate {n = count this}",
-                          "\ngroup {a, g} (take 1)", "\nsort {-g} | take 2", "\nderive {z = a + 1}"])
+        post = self.pick(["", "", "\nsort a", "\nselect {a}", "\nselect {g}" if not one else "", "\nfilter a > 1", "\n" + self.take_txt(), "\naggregate {n = count this}",
+                          "\ngroup {%s} (take 1)" % cl, "\nsort {-a} | take 2", "\nderive {z = a + 1}"])
         if post.strip().startswith("select") or post.strip().startswith("aggregate"):
             tags.add("narrow_after_setop")
         if post.rstrip().endswith(".."):
             tags.add("open_take")
         return src + post.replace(" | ", "\n"), tags
 
+    LET_RELS = ["(from t | select {a} | take 3)", "(from u | select {a, d} | filter a > 0)", "(from t | group {a} (aggregate {m = max b}))",
+                "(from t | select {a, b} | sort a | take 2..4)", "(from [{a = 1}, {a = 2}])"]
+    POSTS = ["sort n", "take 3", "filter n > 1", "aggregate {s = sum n}", "select {n}", "take 2..", "derive {k2 = n * 2}", "derive {w = sum n}", "filter w > 1",
+             "group {n} (take 1)", "take 2", "sort {-n}", "join u (u.id == n)", "select {n, z = n + 1}"]
+
+    def posts(self, k):
+        out = []
+        for _ in range(k):
+            p = self.pick(self.POSTS)
+            if "w >" in p and not any("w = " in x for x in out):
+                p = "derive {w = sum n}"
+            out.append(p)
+            if p.startswith("aggregate"):
+                break
+        return out
+
     def f_loop(self):
         r = self.r
-        init = self.pick(["from [{n = 1}]", "from [{n = 1, m = 2}]", "from t | select {n = a}", "from t | filter a == 1 | select {n = a, m = b}", "from t | take 1 | select {n = id}"])
-        two = "m =" in init
-        step = self.pick(["filter n < %d | select {n = n + 1%s}" % (r.randint(2, 6), ", m = m * 2" if two else ""),
-                          "select {n = n + 1%s} | filter n < 4" % (", m" if two else ""),
-                          "filter n < 3 | derive {k = n + 1} | select {n = k%s}" % (", m" if two else ""),
-                          "join side:inner u (u.id == n) | select {n = n + 1%s} | filter n < 5" % (", m = u.a" if two else "")])
-        post = self.pick(["", "\nsort n", "\ntake 3", "\nfilter n > 1", "\naggregate {s = sum n}", "\nselect {n}", "\ntake 2.."])
         tags = {"loop"}
-        if post.endswith(".."):
+        lets = ""
+        use_let = r.random() < 0.4
+        if use_let:
+            lets = "let x = %s\n" % self.pick(self.LET_RELS)
+            tags.add("let")
+        init = self.pick(["from [{n = 1}]", "from [{n = 1, m = 2}]", "from t | select {n = a}", "from t | filter a == 1 | select {n = a, m = b}", "from t | take 1 | select {n = id}"]
+                         + (["from x | select {n = a}"] if use_let else []))
+        two = "m =" in init
+        steps = ["filter n < %d | select {n = n + 1%s}" % (r.randint(2, 6), ", m = m * 2" if two else ""),
+                 "select {n = n + 1%s} | filter n < 4" % (", m" if two else ""),
+                 "filter n < 3 | derive {k = n + 1} | select {n = k%s}" % (", m" if two else ""),
+                 "join side:inner u (u.id == n) | select {n = n + 1%s} | filter n < 5" % (", m = u.a" if two else "")]
+        if use_let:
+            steps += ["join x (x.a == n) | filter n < 4 | select {n = n + 1%s}" % (", m" if two else "")] * 3
+        step = self.pick(steps)
+        post = self.posts(r.choice([0, 1, 1, 2, 2, 3]))
+        if use_let and r.random() < 0.6:
+            post.insert(r.randint(0, len(post)), "join x (x.a == n)")
+            if not any(p.startswith(("aggregate", "select", "group")) for p in post):
+                post.append("select {n, xa = x.a}")
+        if post and post[-1].endswith(".."):
             tags.add("open_take")
-        return "%s\nloop (%s)%s" % (init, step, post), tags
+        return "%s%s\nloop (%s)%s" % (lets, init, step, "".join("\n" + p for p in post)), tags
 
     def f_literal(self):
         r = self.r
@@ -324,7 +363,7 @@ class G:
 
     def f_let(self):
         r = self.r
-        k = r.randint(0, 5)
+        k = r.randint(0, 8)
         tags = {"let"}
         if k == 0:
             src = "let x = (from t | filter a > 1)\nfrom x\njoin y = (from x | take 3) (==a)"
@@ -340,8 +379,24 @@ class G:
         elif k == 4:
             src = "let table_0 = (from t | select {a, g} | take 3)\nfrom table_0\nderive {w = sum a}\nfilter w > 1"
             tags.add("name_capture")
-        else:
+        elif k == 5:
             src = "let x = (from t | derive {z = a + 1})\nfrom x\njoin side:left u (x.id == u.id)\nselect {x.z, u.d}\nsort {x.z}"
+        else:
+            # one relation variable used in two or three different positions
+            rel = self.pick(self.LET_RELS)
+            uses = r.sample(["from", "join", "append", "join2", "remove"], r.randint(2, 3))
+            src = "let x = %s\nfrom b = %s" % (rel, "x" if "from" in uses else "t")
+            if "join" in uses:
+                src += "\njoin y = x (b.a == y.a)"
+            if "join2" in uses:
+                src += "\njoin side:left z = x (b.a == z.a)"
+            src += "\nselect {b.a}"
+            if "append" in uses:
+                src += "\nappend (from x | select {a})"
+                tags.add("setop"); tags.add("append")
+            if "remove" in uses:
+                src += "\nremove (from x | select {a})"
+                tags.add("setop"); tags.add("remove")
         post = self.pick(["", "", "\n" + self.take_txt()]) if k not in (2, 3) else ""
         if post.rstrip().endswith(".."):
             tags.add("open_take")
